@@ -4,7 +4,7 @@ MPU file sink
 
 from __future__ import annotations
 
-import mmap
+import shutil
 from pathlib import Path
 from typing import Any
 
@@ -72,16 +72,15 @@ class MPUFileSink:
         dst = self._dst
         first, *rest = parts
         p1 = Path(first["Path"])
-        p1.rename(dst)
+        # not ``p1.rename``: ``parts_base`` can be on a different filesystem
+        shutil.move(str(p1), str(dst))
 
         with open(dst, "ab") as f:
             for part in rest:
                 src_path = Path(part["Path"])
                 with src_path.open("rb") as src:
-                    with mmap.mmap(
-                        src.fileno(), 0, access=mmap.ACCESS_READ
-                    ) as src_bytes:
-                        f.write(src_bytes)
+                    # not ``mmap``: it refuses zero length files
+                    shutil.copyfileobj(src, f)
 
                 if not keep_parts:
                     src_path.unlink()
